@@ -296,6 +296,7 @@ pub fn gen_io_plan(seed: u64, thorough: bool) -> serde_json::Value {
         "pending_permille": *rng.pick(&[0u32, 50, 300]),
         "fault": fault,
         "sched": "random",
+        "buffered": rng.chance(1, 2),
         "actors": [{"script": script}],
     })
 }
@@ -496,7 +497,15 @@ pub fn io_harness(spec: &RunSpec) -> RunOutput {
         let msgs = sent.msgs.clone();
         let frames_len: Vec<usize> = sent.frames.iter().map(|f| f.len()).collect();
         let flush_after = flush_after.clone();
-        let mut t = Box::pin(TokioTransport::new(WriteEnd(duplex.clone())));
+        // Half of the runs put the repository's message buffer (`Buffered`) in front of the
+        // transport, as `Connection` and `Client` do.
+        let buffered = plan["buffered"].as_bool().unwrap_or(false);
+        type DynT = Pin<Box<dyn aldrin_core::transport::AsyncTransport<Error = aldrin_core::tokio::TokioTransportError>>>;
+        let mut t: DynT = if buffered {
+            Box::pin(TokioTransport::new(WriteEnd(duplex.clone())).buffered())
+        } else {
+            Box::pin(TokioTransport::new(WriteEnd(duplex.clone())))
+        };
         exec.spawn("sender", async move {
             let mut cum = 0u64;
             for (i, m) in msgs.into_iter().enumerate() {
@@ -699,6 +708,7 @@ pub fn io_harness(spec: &RunSpec) -> RunOutput {
     probe("frame>=64KiB-reserve-step", sent.frames.iter().filter(|f| f.len() >= 65536).count() as u64);
     probe("frame>4MiB", sent.frames.iter().filter(|f| f.len() > 4 << 20).count() as u64);
     probe("transport-pair-run", 1);
+    probe("buffered-in-front", plan["buffered"].as_bool().unwrap_or(false) as u64);
     let mut fault_ct = |k: &'static str, v: u64| {
         if v > 0 {
             *st.faults.entry(k).or_insert(0) += v;
